@@ -49,6 +49,11 @@ class GrumpyTwo(TwoEndedLink):
     __str__ = __repr__
     def __format__(self, spec):
         raise RuntimeError("format() of an object that is not ready to be shown")
+class LabelUni(Universe):
+    """a user universe class with a `__contains__` of its own that answers by label (two different member candidates may carry one label):
+    what `x in universe` says is the user's business, what `universe.vertices` lists is the library's"""
+    def __contains__(self, x):
+        return any(getattr(m, "label", None) == getattr(x, "label", "?") for m in self.vertices)
 class ClusterVert(Vertex):
     """a user vertex class that can be iterated (a cluster yielding its member vertices) - still one vertex"""
     members = ()
